@@ -370,12 +370,16 @@ impl Generator {
         } else {
             None
         };
+        #[cfg(feature = "verif-hooks")]
+        crate::verif::emit(|| crate::verif::Event::PostBegin);
 
         // Let each mutator post-process
         for mutator in &self.mutators {
             mutator.post_process(&snapshot, &mut self.output, source, self.mutation_rate);
         }
 
+        #[cfg(feature = "verif-hooks")]
+        crate::verif::emit(|| crate::verif::Event::PostEnd);
         #[cfg(feature = "verif-hooks")]
         if let Some(before) = __verif_before {
             if before != self.output {
